@@ -10,8 +10,11 @@ CONFIGS = {
     "K2": dict(Keys={1, 2}, Nodes={1, 2}, Times={0, 1, 2}, MaxReqs=2),
     "K3": dict(Keys={1, 2}, Nodes={1}, Times={0, 1, 2}, MaxReqs=3),
     "K4": dict(Keys={1, 2}, Nodes={1}, Times={0, 2, 3}, MaxReqs=3),
+    # three keys, stamps more than a forgiveness period apart: a bulk request can move the cut-off of its own origin mid-way
+    "K5": dict(Keys={1, 2, 3}, Nodes={1}, Times={0, 3}, MaxReqs=2),
+    "K6": dict(Keys={1, 2, 3}, Nodes={1}, Times={0, 1, 3}, MaxReqs=2),
 }
-TIERS = {"quick": ["K1", "K3"], "thorough": ["K1", "K2", "K3", "K4"]}
+TIERS = {"quick": ["K1", "K3", "K5"], "thorough": ["K1", "K2", "K3", "K4", "K5", "K6"]}
 INVARIANTS = ["C02_Agree", "C07_AckedVisible", "WellFormedInv"]
 PROPERTIES = ["C07_RebuildExact"]
 
